@@ -15,20 +15,27 @@
 (*   MediaQuery / MediaRead content  must be answers the environment model allows (ENV: reasons - the kernel, not the    *)
 (*                        cache, would be at fault);                                                                     *)
 (*   PunchInv / Reopen / Quiesce   only with no read in flight (harness discipline).                                     *)
+(* KF_C17A (environment KF_C17A=1) additionally accepts the recorded defect C17a, and only it: once the media file of f   *)
+(* is larger than the source (an evict-to-end at an offset past the end EXTENDS the media file) and the directory has    *)
+(* been reopened, the new pool instance believes that size; reads of f and the source / media reads made for them are   *)
+(* then not judged until the next reopen finds the media file no larger than the source.                                *)
 (* The specification is deterministic: an execution is accepted iff every event satisfies its condition; the first      *)
 (* event that does not is reported with the reason printed as <<"WHY", line, reason>>.                                   *)
 EXTENDS Naturals, Integers, Sequences, FiniteSets, TLC, Json, IOUtils
 Tr == ndJsonDeserialize(IOEnv.TRACE)
 T == 1..9
-MAXG == 64
+MAXG == 200
 BLOCK == 4096
 INF == 1073741824
 NoOp == [f |-> -1, off |-> 0, len |-> 0]
 NoFile == [w |-> <<>>, good |-> <<>>, size |-> 0]
-VARIABLES l, cfg, pend, flt, med
-vars == <<l, cfg, pend, flt, med>>
+VARIABLES l, cfg, pend, flt, med, big, bad
+vars == <<l, cfg, pend, flt, med, big, bad>>
+KF_C17A == "KF_C17A" \in DOMAIN IOEnv /\ IOEnv.KF_C17A = "1"
+NF == 10
 NoCfg == [sizes |-> <<>>]
-Init == l = 1 /\ cfg = NoCfg /\ pend = [t \in T |-> NoOp] /\ flt = [t \in T |-> FALSE] /\ med = [g \in 1..MAXG |-> NoFile] /\ TLCSet(1, 0)
+Init == l = 1 /\ cfg = NoCfg /\ pend = [t \in T |-> NoOp] /\ flt = [t \in T |-> FALSE] /\ med = <<>>
+        /\ big = [f \in 0..NF |-> FALSE] /\ bad = [f \in 0..NF |-> FALSE] /\ TLCSet(1, 0)
 Ev(e) == l <= Len(Tr) /\ Tr[l].e = e /\ l' = l + 1
 R == Tr[l]
 Why(s) == PrintT(<<"WHY", l, s>>) /\ FALSE
@@ -57,69 +64,87 @@ RunsOK(runs, f, off, n) == IF n = 0 THEN runs = <<>> ELSE runs = <<<<Tag(f, off)
 Size(f) == cfg.sizes[f + 1]
 Idle == \A t \in T : pend[t].f = -1
 
-Reset == /\ Ev("Reset") /\ cfg' = R /\ pend' = [t \in T |-> NoOp] /\ flt' = [t \in T |-> FALSE] /\ med' = [g \in 1..MAXG |-> NoFile]
+\* media model, per generation g of a media file: a sequence that grows with the generations seen
+M(g) == IF g <= Len(med) THEN med[g] ELSE NoFile
+SetM(g, v) == [i \in 1..Max2(g, Len(med)) |-> IF i = g THEN v ELSE M(i)]
+Waived(f) == KF_C17A /\ f \in 0..NF /\ bad[f]
+Bigger(f, n) == [big EXCEPT ![f] = n > Size(f)]
+
+Reset == /\ Ev("Reset") /\ cfg' = R /\ pend' = [t \in T |-> NoOp] /\ flt' = [t \in T |-> FALSE] /\ med' = <<>>
+         /\ big' = [f \in 0..NF |-> FALSE] /\ bad' = [f \in 0..NF |-> FALSE]
 ReadInv == /\ Ev("ReadInv") /\ R.t \in T /\ pend[R.t].f = -1 /\ R.f >= 0 /\ R.f < Len(cfg.sizes)
            /\ pend' = [pend EXCEPT ![R.t] = [f |-> R.f, off |-> R.off, len |-> R.len]]
-           /\ flt' = [flt EXCEPT ![R.t] = FALSE] /\ UNCHANGED <<cfg, med>>
+           /\ flt' = [flt EXCEPT ![R.t] = FALSE] /\ UNCHANGED <<cfg, med, big, bad>>
 ReadResp == /\ Ev("ReadResp") /\ R.t \in T /\ pend[R.t].f >= 0
             /\ LET p == pend[R.t]  sz == Size(p.f)
                    want == IF p.off >= sz THEN 0 ELSE Min2(p.len, sz - p.off)
                    ok == IF R.ret = want THEN RunsOK(R.runs, p.f, p.off, want)
                          ELSE flt[R.t] /\ (R.ret = -1 \/ (R.ret >= 0 /\ R.ret < want /\ RunsOK(R.runs, p.f, p.off, R.ret)))
                IN /\ Chk(R.guards, "a read wrote outside the caller's buffers")
-                  /\ Chk(ok, IF R.ret # want /\ ~(flt[R.t] /\ R.ret >= -1 /\ R.ret < want)
-                             THEN "read returned " \o ToString(R.ret) \o ", the source gives " \o ToString(want)
-                                  \o (IF flt[R.t] THEN " (a source fault hit this read)" ELSE " (no source fault)")
-                             ELSE "read returned bytes that are not the source's: runs " \o ToString(R.runs) \o ", expected "
-                                  \o ToString(<<<<Tag(p.f, p.off), IF R.ret = want THEN want ELSE R.ret>>>>))
-            /\ pend' = [pend EXCEPT ![R.t] = NoOp] /\ flt' = [flt EXCEPT ![R.t] = FALSE] /\ UNCHANGED <<cfg, med>>
+                  /\ Chk(ok \/ Waived(p.f),
+                         IF R.ret # want /\ ~(flt[R.t] /\ R.ret >= -1 /\ R.ret < want)
+                         THEN "read returned " \o ToString(R.ret) \o ", the source gives " \o ToString(want)
+                              \o (IF flt[R.t] THEN " (a source fault hit this read)" ELSE " (no source fault)")
+                         ELSE "read returned bytes that are not the source's: runs " \o ToString(R.runs) \o ", expected "
+                              \o ToString(<<<<Tag(p.f, p.off), IF R.ret = want THEN want ELSE R.ret>>>>))
+            /\ pend' = [pend EXCEPT ![R.t] = NoOp] /\ flt' = [flt EXCEPT ![R.t] = FALSE] /\ UNCHANGED <<cfg, med, big, bad>>
 SrcRead == /\ Ev("SrcRead") /\ R.f >= 0 /\ R.f < Len(cfg.sizes)
-           /\ Chk(R.off + R.len <= Size(R.f), "source read beyond the source size " \o ToString(Size(R.f)))
+           /\ Chk(R.off + R.len <= Size(R.f) \/ Waived(R.f), "source read beyond the source size " \o ToString(Size(R.f)))
            /\ flt' = IF R.fault /\ R.t \in T THEN [flt EXCEPT ![R.t] = TRUE] ELSE flt
-           /\ UNCHANGED <<cfg, pend, med>>
-GOK == R.g \in 1..MAXG
+           /\ UNCHANGED <<cfg, pend, med, big, bad>>
+GOK == R.g \in 1..MAXG /\ R.f \in 0..NF
 MediaWrite == /\ Ev("MediaWrite") /\ GOK
               /\ IF R.ret > 0
-                 THEN /\ Chk(RunsOK(R.runs, R.f, R.off, R.ret), "media written with bytes that are not the source's bytes of that range: "
-                                                                 \o ToString(R.runs))
-                      /\ med' = [med EXCEPT ![R.g] = [w |-> IAdd(@.w, R.off, R.off + R.ret), good |-> IAdd(@.good, R.off, R.off + R.ret),
-                                                       size |-> Max2(@.size, R.off + R.ret)]]
-                 ELSE UNCHANGED med
-              /\ UNCHANGED <<cfg, pend, flt>>
+                 THEN /\ Chk(RunsOK(R.runs, R.f, R.off, R.ret) \/ Waived(R.f),
+                             "media written with bytes that are not the source's bytes of that range: " \o ToString(R.runs))
+                      /\ LET m == M(R.g)
+                             isok == RunsOK(R.runs, R.f, R.off, R.ret) IN
+                         /\ med' = SetM(R.g, [w |-> IAdd(m.w, R.off, R.off + R.ret),
+                                              good |-> IF isok THEN IAdd(m.good, R.off, R.off + R.ret) ELSE ISub(m.good, R.off, R.off + R.ret),
+                                              size |-> Max2(m.size, R.off + R.ret)])
+                         /\ big' = Bigger(R.f, Max2(m.size, R.off + R.ret))
+                 ELSE UNCHANGED <<med, big>>
+              /\ UNCHANGED <<cfg, pend, flt, bad>>
 MediaRead == /\ Ev("MediaRead") /\ GOK
-             /\ Chk(R.off + R.len <= Size(R.f), "media read beyond the source size " \o ToString(Size(R.f)))
-             /\ IF R.ret > 0
-                THEN /\ Chk(ICov(med[R.g].good, R.off, R.off + R.ret),
+             /\ Chk(R.off + R.len <= Size(R.f) \/ Waived(R.f), "media read beyond the source size " \o ToString(Size(R.f)))
+             /\ IF R.ret > 0 /\ ~Waived(R.f)
+                THEN /\ Chk(ICov(M(R.g).good, R.off, R.off + R.ret),
                             "media read delivers bytes that were not written from the source (hole, or truncated / punched since); written: "
-                            \o ToString(med[R.g].good))
+                            \o ToString(M(R.g).good))
                      /\ Chk(RunsOK(R.runs, R.f, R.off, R.ret), "ENV: the media returned other bytes than were written")
                 ELSE TRUE
-             /\ UNCHANGED <<cfg, pend, flt, med>>
+             /\ UNCHANGED <<cfg, pend, flt, med, big, bad>>
 CutAt(S, n) == ISub(S, n, INF)
 MediaTrunc == /\ Ev("MediaTrunc")
-              /\ IF R.ret = 0 /\ R.g \in 1..MAXG
-                 THEN med' = [med EXCEPT ![R.g] = [w |-> CutAt(@.w, R.len), good |-> CutAt(@.good, R.len), size |-> R.len]]
-                 ELSE UNCHANGED med
-              /\ UNCHANGED <<cfg, pend, flt>>
+              /\ IF R.ret = 0 /\ R.g \in 1..MAXG /\ R.f \in 0..NF
+                 THEN /\ med' = SetM(R.g, [w |-> CutAt(M(R.g).w, R.len), good |-> CutAt(M(R.g).good, R.len), size |-> R.len])
+                      /\ big' = Bigger(R.f, R.len)
+                 ELSE UNCHANGED <<med, big>>
+              /\ UNCHANGED <<cfg, pend, flt, bad>>
 MediaPunch == /\ Ev("MediaPunch") /\ GOK
               /\ IF R.ret = 0
-                 THEN med' = [med EXCEPT ![R.g] = [w |-> ISub(@.w, R.off, R.off + R.len), good |-> ISub(@.good, R.off, R.off + R.len), size |-> @.size]]
+                 THEN med' = SetM(R.g, [w |-> ISub(M(R.g).w, R.off, R.off + R.len), good |-> ISub(M(R.g).good, R.off, R.off + R.len),
+                                        size |-> M(R.g).size])
                  ELSE UNCHANGED med
-              /\ UNCHANGED <<cfg, pend, flt>>
+              /\ UNCHANGED <<cfg, pend, flt, big, bad>>
 MediaUnlink == /\ Ev("MediaUnlink")
-               /\ med' = IF R.ret = 0 /\ R.g \in 1..MAXG THEN [med EXCEPT ![R.g] = NoFile] ELSE med
-               /\ UNCHANGED <<cfg, pend, flt>>
+               /\ IF R.ret = 0 /\ R.g \in 1..MAXG /\ R.f \in 0..NF
+                  THEN med' = SetM(R.g, NoFile) /\ big' = [big EXCEPT ![R.f] = FALSE]
+                  ELSE UNCHANGED <<med, big>>
+               /\ UNCHANGED <<cfg, pend, flt, bad>>
 \* the extents reported for [off, off+len) are exactly the 4K blocks that hold written bytes
 ExtHas(ext, b) == \E i \in 1..Len(ext) : ext[i][1] <= b * BLOCK /\ (b + 1) * BLOCK <= ext[i][1] + ext[i][2]
 MediaQuery == /\ Ev("MediaQuery") /\ GOK
               /\ Chk(\A b \in (R.off \div BLOCK)..((R.off + R.len - 1) \div BLOCK) :
-                        ExtHas(R.ext, b) <=> IHit(med[R.g].w, b * BLOCK, (b + 1) * BLOCK),
-                     "ENV: extent map of the media file disagrees with what was written: " \o ToString(R.ext) \o " vs " \o ToString(med[R.g].w))
-              /\ UNCHANGED <<cfg, pend, flt, med>>
-Skip == (Ev("MediaSeek") \/ Ev("EvictInv") \/ Ev("EvictResp") \/ Ev("PunchResp")) /\ UNCHANGED <<cfg, pend, flt, med>>
-AtRestEv == (Ev("PunchInv") \/ Ev("Reopen") \/ Ev("Quiesce")) /\ Chk(Idle, "harness: not at rest") /\ UNCHANGED <<cfg, pend, flt, med>>
+                        ExtHas(R.ext, b) <=> IHit(M(R.g).w, b * BLOCK, (b + 1) * BLOCK),
+                     "ENV: extent map of the media file disagrees with what was written: " \o ToString(R.ext) \o " vs " \o ToString(M(R.g).w))
+              /\ UNCHANGED <<cfg, pend, flt, med, big, bad>>
+Skip == (Ev("MediaSeek") \/ Ev("EvictInv") \/ Ev("EvictResp") \/ Ev("PunchResp")) /\ UNCHANGED <<cfg, pend, flt, med, big, bad>>
+AtRestEv == (Ev("PunchInv") \/ Ev("Quiesce")) /\ Chk(Idle, "harness: not at rest") /\ UNCHANGED <<cfg, pend, flt, med, big, bad>>
+\* a new pool instance takes the size of each media file as the size of the cached file
+Reopen == Ev("Reopen") /\ Chk(Idle, "harness: not at rest") /\ bad' = big /\ UNCHANGED <<cfg, pend, flt, med, big>>
 Next == Reset \/ ReadInv \/ ReadResp \/ SrcRead \/ MediaWrite \/ MediaRead \/ MediaTrunc \/ MediaPunch \/ MediaUnlink \/ MediaQuery
-        \/ Skip \/ AtRestEv
+        \/ Skip \/ AtRestEv \/ Reopen
 Spec == Init /\ [][Next]_vars
 NotAccepted == l <= Len(Tr)
 Progress == TLCSet(1, IF TLCGet(1) < l THEN l ELSE TLCGet(1))
